@@ -86,6 +86,13 @@ func c11Run(c *Ctx) {
 		if y := c.L("gen:y"); y.Chance(1, 3) {
 			o.Top64 = 1 + y.Intn(7) // moov / xpacket / preview boxes with 64-bit sizes
 		}
+		if w := c.L("gen:w"); w.Chance(1, 8) {
+			o.Brands = 1000 + w.Intn(400) // a ftyp box around and beyond the 4 KiB the library buffers
+			c.Inc("probe:ftyp-beyond-4KiB")
+		}
+		if w := c.L("gen:w"); w.Chance(1, 4) {
+			o.Top64 |= 8 // the PRVW box itself carries a 64-bit size
+		}
 		if y := c.L("gen:y"); y.Chance(1, 4) {
 			o.CTBO = 1 + y.Intn(15) // five to seven CTBO records, count field up to three beyond them
 		}
@@ -104,10 +111,10 @@ func c11Run(c *Ctx) {
 		// PreviewCR3 walks the layout cameras write: ftyp, moov, xpacket uuid, preview uuid
 		// PreviewCR3 reads three top-level boxes behind ftyp (moov, xpacket, preview as cameras
 		// write them) and, if the preview has not turned up, up to eight: it is compared with the
-		// generator when the preview box is among those and the first three exist
+		// generator when the preview box is among those (a file that ends with it included)
 		canonicalOrder = false
 		for i, t := range cr.Top {
-			if t.Type == "uuid-prvw" && i >= 1 && i <= 8 && len(cr.Top)-1 >= 3 {
+			if t.Type == "uuid-prvw" && i >= 1 && i <= 8 {
 				canonicalOrder = true
 			}
 		}
